@@ -1,0 +1,153 @@
+//go:build verif
+
+// Contracts for the verification machinery in /verif (comment-only; never compiled into a binary).
+// Property C17: migration jobs evict only after capacity is secured; finished jobs stay finished.
+
+package migration
+
+//@ uses pkg/descheduler/controllers/migration/util, pkg/descheduler/controllers/migration/reservation
+
+// evictPod: the evictor is invoked at most once, only for the pod just read, only while the job's
+// eviction condition is neither True nor "Evicting", for the uid the job refers to once a condition exists,
+// and only after the bound-by-another-pod check ran exactly once and did not abort.
+// (`cond` is the condition returned by util.GetCondition(&job.Status, Eviction); `aborted` the first
+// result of abortJobIfReservationBoundByAnotherPod; the counter is already incremented at the assert.)
+//@ func (*Reconciler).evictPod [C17]
+//@   requires r != nil && job != nil
+//@   ensures #once: calls("Evict") <= 1
+//@   ensures #complete: result0 ==> calls("Evict") == 0
+//@   ensures #evicted: calls("Evict") == 1 ==> !result0
+//@   ensures #phase: job.Status.Phase == old(job.Status.Phase) || (job.Status.Phase == sev1alpha1.PodMigrationJobFailed && calls("Evict") == 0)
+//@   assert before call Evict: #notdone: cond != nil ==> cond.Status != sev1alpha1.PodMigrationJobConditionStatusTrue && cond.Reason != sev1alpha1.PodMigrationJobReasonEvicting
+//@   assert before call Evict: #uidIfMarked: cond != nil ==> job.Spec.PodRef.UID == "" || job.Spec.PodRef.UID == pod.ObjectMeta.UID
+//@   assert before call Evict: #target: $arg2 == pod && $arg1 == job
+//@   assert before call Evict: #boundcheck: calls("abortJobIfReservationBoundByAnotherPod") == 1 && !aborted
+//@   assert before call Evict: #first: calls("Evict") == 1
+
+// ---- abort helpers: every abortJobBy* leaves the in-memory job in phase Failed with its reason, touches only
+// the three status fields, and writes the status to the API server only after the phase has been set.
+
+//@ func (*Reconciler).abortJobByInvalidPodRef [C17]
+//@   requires r != nil && job != nil
+//@   ensures #failed: job.Status.Phase == sev1alpha1.PodMigrationJobFailed && job.Status.Reason == "InvalidPodRef"
+//@   assert before call Update: #set: job.Status.Phase == sev1alpha1.PodMigrationJobFailed && payload($arg1, *sev1alpha1.PodMigrationJob) == job
+//@   modifies job.Status.Phase, job.Status.Reason, job.Status.Message
+
+//@ func (*Reconciler).abortJobByMissingPod [C17]
+//@   requires r != nil && job != nil
+//@   ensures #failed: job.Status.Phase == sev1alpha1.PodMigrationJobFailed && job.Status.Reason == sev1alpha1.PodMigrationJobReasonMissingPod
+//@   assert before call Update: #set: job.Status.Phase == sev1alpha1.PodMigrationJobFailed && payload($arg1, *sev1alpha1.PodMigrationJob) == job
+//@   modifies job.Status.Phase, job.Status.Reason, job.Status.Message
+
+//@ func (*Reconciler).abortJobByMissingReservation [C17]
+//@   requires r != nil && job != nil
+//@   ensures #failed: job.Status.Phase == sev1alpha1.PodMigrationJobFailed && job.Status.Reason == sev1alpha1.PodMigrationJobReasonMissingReservation
+//@   assert before call Update: #set: job.Status.Phase == sev1alpha1.PodMigrationJobFailed && payload($arg1, *sev1alpha1.PodMigrationJob) == job
+//@   modifies job.Status.Phase, job.Status.Reason, job.Status.Message
+
+//@ func (*Reconciler).abortJobByReservationExpired [C17]
+//@   requires r != nil && job != nil
+//@   ensures #failed: job.Status.Phase == sev1alpha1.PodMigrationJobFailed && job.Status.Reason == sev1alpha1.PodMigrationJobReasonReservationExpired
+//@   assert before call Update: #set: job.Status.Phase == sev1alpha1.PodMigrationJobFailed && payload($arg1, *sev1alpha1.PodMigrationJob) == job
+//@   modifies job.Status.Phase, job.Status.Reason, job.Status.Message
+
+//@ func (*Reconciler).abortJobByReservationBound [C17]
+//@   requires r != nil && job != nil
+//@   ensures #failed: job.Status.Phase == sev1alpha1.PodMigrationJobFailed && job.Status.Reason == sev1alpha1.PodMigrationJobReasonForbiddenMigratePod
+//@   assert before call Update: #set: job.Status.Phase == sev1alpha1.PodMigrationJobFailed && payload($arg1, *sev1alpha1.PodMigrationJob) == job
+//@   modifies job.Status.Phase, job.Status.Reason, job.Status.Message
+
+//@ func (*Reconciler).abortJobByReservationUnschedulable [C17]
+//@   requires r != nil && job != nil
+//@   ensures #failed: job.Status.Phase == sev1alpha1.PodMigrationJobFailed && job.Status.Reason == sev1alpha1.PodMigrationJobReasonUnschedulable
+//@   assert before call Update: #set: job.Status.Phase == sev1alpha1.PodMigrationJobFailed && payload($arg1, *sev1alpha1.PodMigrationJob) == job
+//@   modifies job.Status.Phase, job.Status.Reason, job.Status.Message
+
+// ---- TTL abort: an expired job (TTL set, elapsed >= TTL) asks the interpreter to delete its reservation
+// before the phase is changed and before any status write; the status is written only after that attempt;
+// a job that is not expired is left alone.
+
+//@ spec func jobExpired(r *Reconciler, job *sev1alpha1.PodMigrationJob) bool = job.Spec.TTL != nil && job.Spec.TTL.Duration != 0 && r.clock.Since(job.ObjectMeta.CreationTimestamp.Time) >= job.Spec.TTL.Duration
+//@ spec func hasReservationRef(job *sev1alpha1.PodMigrationJob) bool = job.Spec.ReservationOptions != nil && job.Spec.ReservationOptions.ReservationRef != nil
+
+//@ func (*Reconciler).abortJobIfTimeout [C17]
+//@   requires r != nil && job != nil
+//@   ensures #iff: result0 <==> old(jobExpired(r, job))
+//@   ensures #live: !result0 ==> result1 == nil && job.Status.Phase == old(job.Status.Phase)
+//@   ensures #failed: result0 && result1 == nil ==> job.Status.Phase == sev1alpha1.PodMigrationJobFailed && job.Status.Reason == sev1alpha1.PodMigrationJobReasonTimeout
+//@   ensures #phase: job.Status.Phase == old(job.Status.Phase) || job.Status.Phase == sev1alpha1.PodMigrationJobFailed
+//@   assert before call deleteReservation: #expired: old(jobExpired(r, job))
+//@   assert before call deleteReservation: #first: job.Status.Phase == old(job.Status.Phase) && calls("Update") == 0 && calls("DeleteReservation") == 0 && $arg1 == job
+//@   assert before call Update: #deleted: old(jobExpired(r, job)) && (hasReservationRef(job) ==> calls("DeleteReservation") == 1) && job.Status.Phase == sev1alpha1.PodMigrationJobFailed
+//@   modifies job.Status.Phase, job.Status.Reason, job.Status.Message
+
+// ---- updateCondition: writes only the condition list and the Status/Reason/Message mirror (never the phase);
+// the status write happens after the mirror fields are set.
+
+//@ func (*Reconciler).updateCondition [C17]
+//@   requires r != nil && job != nil && cond != nil
+//@   ensures #unchanged: cond.Type == old(cond.Type) && cond.Status == old(cond.Status) && cond.Reason == old(cond.Reason)
+//@   assert before call Update: #mirrored: job.Status.Status == string(cond.Type) && job.Status.Reason == cond.Reason
+//@   modifies job.Status.Conditions, allelems(job.Status.Conditions), job.Status.Status, job.Status.Reason, job.Status.Message, all(sev1alpha1.PodMigrationJobCondition).LastTransitionTime, all(sev1alpha1.PodMigrationJobStatus).Conditions
+
+// ---- reservation gates
+
+// Aborts only when the lookup failed, or the fetched reservation is Succeeded and not bound by the given pod;
+// "not aborted" always comes with a nil error and an unchanged job; "aborted without error" means phase Failed.
+//@ func (*Reconciler).abortJobIfReservationBoundByAnotherPod [C17]
+//@   requires r != nil && job != nil
+//@   ensures #noref: !old(hasReservationRef(job)) ==> !result0
+//@   ensures #pass: !result0 ==> result1 == nil && job.Status.Phase == old(job.Status.Phase) && job.Status.Reason == old(job.Status.Reason)
+//@   ensures #abort: result0 && result1 == nil ==> job.Status.Phase == sev1alpha1.PodMigrationJobFailed && job.Status.Reason == sev1alpha1.PodMigrationJobReasonForbiddenMigratePod
+//@   ensures #phase: job.Status.Phase == old(job.Status.Phase) || job.Status.Phase == sev1alpha1.PodMigrationJobFailed
+//@   assert before call GetReservation: #ref: hasReservationRef(job) && $arg1 == job.Spec.ReservationOptions.ReservationRef && calls("GetReservation") == 1
+//@   assert before call abortJobByReservationBound: #bound: reservationObj != nil && reservationObj.GetPhase() == sev1alpha1.ReservationSucceeded && (pod == nil || reservationObj.GetBoundPod() == nil || reservationObj.GetBoundPod().UID != pod.ObjectMeta.UID)
+//@   assert before call abortJobByMissingReservation: #missing: err != nil
+//@   modifies job.Status.Phase, job.Status.Reason, job.Status.Message
+
+// Aborts (phase Failed, reason ForbiddenMigratePod) only when the pod was read and the reservation's node is
+// non-empty and equal to the pod's node; otherwise the job is untouched and the error is nil.
+//@ func (*Reconciler).abortJobIfReserveOnSameNode [C17]
+//@   requires r != nil && job != nil
+//@   ensures #pass: !result0 ==> result1 == nil && job.Status.Phase == old(job.Status.Phase) && job.Status.Reason == old(job.Status.Reason) && job.Status.Message == old(job.Status.Message)
+//@   ensures #abort: result0 ==> job.Status.Phase == sev1alpha1.PodMigrationJobFailed && job.Status.Reason == sev1alpha1.PodMigrationJobReasonForbiddenMigratePod
+//@   assert before call Update: #samenode: scheduledNodeName == reservationObj.GetScheduledNodeName() && scheduledNodeName != "" && scheduledNodeName == pod.Spec.NodeName && job.Status.Phase == sev1alpha1.PodMigrationJobFailed
+//@   assert before call GetScheduledNodeName: #read: err == nil
+//@   modifies job.Status.Phase, job.Status.Reason, job.Status.Message
+
+// nil result: the phase is unchanged; the same-node gate ran (exactly once, not aborted, no error) before the
+// job is marked ReservationScheduled=True, and that mark is only set for a non-empty node recorded in the job.
+//@ func (*Reconciler).prepareJobWithReservationScheduleSuccess [C17]
+//@   requires r != nil && job != nil
+//@   ensures #ok: result == nil ==> job.Status.Phase == old(job.Status.Phase)
+//@   ensures #phase: job.Status.Phase == old(job.Status.Phase) || (job.Status.Phase == sev1alpha1.PodMigrationJobFailed && result != nil)
+//@   assert before call abortJobIfReserveOnSameNode: #need: scheduledNodeName != "" && scheduledNodeName == reservationObj.GetScheduledNodeName() && job.Status.NodeName == "" && $arg2 == reservationObj
+//@   modifies job.Status, allelems(job.Status.Conditions), all(sev1alpha1.PodMigrationJobCondition).LastTransitionTime, all(sev1alpha1.PodMigrationJobStatus).Conditions
+//@   assert before call updateCondition: #checked: calls("abortJobIfReserveOnSameNode") == 1 && !aborted && err == nil && job.Status.NodeName == scheduledNodeName && scheduledNodeName != "" && job.Status.Phase == old(job.Status.Phase)
+
+// ---- doMigrate: one reconcile of one job.
+
+//@ spec func terminalPhase(job *sev1alpha1.PodMigrationJob) bool = job.Status.Phase != "" && job.Status.Phase != sev1alpha1.PodMigrationJobPending && job.Status.Phase != sev1alpha1.PodMigrationJobRunning
+//@ spec func directMode(r *Reconciler, job *sev1alpha1.PodMigrationJob) bool = job.Spec.Mode == sev1alpha1.PodMigrationJobModeEvictionDirectly || (job.Spec.Mode == "" && r.args.DefaultJobMode == string(sev1alpha1.PodMigrationJobModeEvictionDirectly))
+//@ spec func resPending(o reservation.Object) bool = o != nil && (o.GetPhase() == "" || o.GetPhase() == sev1alpha1.ReservationPending)
+
+//@ func (*Reconciler).doMigrate [C17]
+//@   requires r != nil && job != nil && r.args != nil
+//@   option inline preparePendingJob preparePodRef evictPodDirectly createReservation waitForPendingPodScheduled
+//@   ensures #finished: old(job.Spec.Paused || terminalPhase(job)) ==> result1 == nil && job.Status.Phase == old(job.Status.Phase) && job.Status.Reason == old(job.Status.Reason) && len(job.Status.Conditions) == old(len(job.Status.Conditions)) && calls("evictPod") == 0 && calls("Evict") == 0 && calls("GetReservation") == 0 && calls("CreateReservation") == 0 && calls("DeleteReservation") == 0 && calls("Preempt") == 0 && calls("Update") == 0 && calls("Get") == 0 && calls("abortJobIfTimeout") == 0
+//@   ensures #expired: old(!job.Spec.Paused && !terminalPhase(job) && jobExpired(r, job)) ==> calls("abortJobIfTimeout") == 1 && calls("evictPod") == 0 && calls("CreateReservation") == 0 && calls("GetReservation") == 0 && (job.Status.Phase == old(job.Status.Phase) || job.Status.Phase == sev1alpha1.PodMigrationJobFailed)
+//@   assert before call evictPod: #mode: !directMode(r, job)
+//@   assert before call evictPod: #ref: hasReservationRef(job)
+//@   assert before call evictPod: #job: $arg1 == job
+//@   assert before call evictPod: #notpending: !resPending(reservationObj)
+//@   assert before call evictPod: #notexpired: !reservation.IsReservationExpired(reservationObj)
+//@   assert before call evictPod: #scheduled: reservation.IsReservationScheduled(reservationObj) || (preemptComplete && reservationObj.NeedPreemption() && preemption != nil)
+//@   assert before call evictPod: #prepared: calls("prepareJobWithReservationScheduleSuccess") == 1 && job.Status.Phase == sev1alpha1.PodMigrationJobRunning
+//@   assert before call evictPod: #noabort: calls("abortJobByMissingReservation") == 0 && calls("abortJobByReservationExpired") == 0 && calls("abortJobByReservationUnschedulable") == 0 && calls("createReservation") == 0
+//@   assert before call evictPod: #scheduledpod: !util.IsMigratePendingPod(reservationObj)
+//@   assert before call prepareJobWithReservationScheduleSuccess: #same: $arg2 == reservationObj && $arg1 == job
+//@   ensures #once: calls("evictPod") <= 1 && calls("CreateReservation") <= 1 && (calls("CreateReservation") == 1 ==> calls("evictPod") == 0)
+//@   ensures #succeeded: job.Status.Phase == sev1alpha1.PodMigrationJobSucceeded && old(job.Status.Phase) != sev1alpha1.PodMigrationJobSucceeded ==> calls("evictPod") == 1 || calls("waitForPendingPodScheduled") == 1
+//@   assert before call createReservation: #noref: !hasReservationRef(job) && !directMode(r, job) && calls("evictPod") == 0
+//@   assert before call abortJobByReservationExpired: #isexpired: reservation.IsReservationExpired(reservationObj) && !resPending(reservationObj)
+//@   assert before call abortJobByReservationUnschedulable: #unsched: !reservation.IsReservationScheduled(reservationObj) && !resPending(reservationObj) && !reservation.IsReservationExpired(reservationObj)
